@@ -498,8 +498,10 @@ impl Caps {
     }
 }
 
-fn new_run_state(rs: &RunSpec, n: usize) -> RunState {
+fn new_run_state(rs: &RunSpec, n: usize, built: &Built) -> RunState {
     let fam = rs.api.family();
+    let undropped_preds: Vec<usize> = built.preds_dir(rs.reverse).iter().map(|p| p.len()).collect();
+    let releasable_unyielded = undropped_preds.iter().filter(|&&c| c == 0).count();
     RunState {
         spec: rs.clone(),
         family_counts_calls_exactly: matches!(fam, Family::Fold | Family::TryFold | Family::Stream),
@@ -525,10 +527,14 @@ fn new_run_state(rs: &RunSpec, n: usize) -> RunState {
         held_finish: Vec::new(),
         vnow: 0,
         polls_since_external: 0,
+        max_polls_since_external: 0,
         call_counter: 0,
         yielded: vec![false; n],
         ref_dropped: vec![false; n],
         intr_delivered: false,
+        undropped_preds,
+        succs_dir: if rs.api.is_stream() { built.succs_dir(rs.reverse).clone() } else { Vec::new() },
+        releasable_unyielded,
     }
 }
 
@@ -546,6 +552,9 @@ pub struct DriveResult {
     /// quiescence, then complete the function with the earliest virtual finish
     /// time; no spurious poll, no event inside a poll)
     pub vt_ok: Vec<bool>,
+    /// calibration of the liveness cap: most polls any run needed after its last external event
+    pub max_polls_after_external: usize,
+    pub n: usize,
 }
 
 /// Drives `specs` (all simultaneously) on the given graph.
@@ -611,7 +620,7 @@ async fn drive_async<'g>(
     {
         let mut runs = w.runs.borrow_mut();
         for (r, rs) in specs.iter().enumerate() {
-            runs.push(new_run_state(rs, n));
+            runs.push(new_run_state(rs, n, built));
             w.cells[r].strict.set(rs.strict_waker);
         }
     }
@@ -993,6 +1002,13 @@ async fn drive_async<'g>(
     set_current(None);
 
     let wakes_stale = w.cells.iter().map(|c| c.wakes_stale.get()).sum();
+    let max_polls_after_external = w
+        .runs
+        .borrow()
+        .iter()
+        .map(|r| r.max_polls_since_external)
+        .max()
+        .unwrap_or(0);
     let events = std::mem::take(&mut *w.events.borrow_mut());
     let schedule = std::mem::take(&mut *w.schedule.borrow_mut());
     let fired = std::mem::take(&mut *w.fired.borrow_mut());
@@ -1006,6 +1022,8 @@ async fn drive_async<'g>(
         makespan,
         wakes_stale,
         vt_ok,
+        max_polls_after_external,
+        n,
     }
 }
 
@@ -1046,6 +1064,7 @@ async fn poll_run<'g>(
         let rs = &mut runs[r];
         rs.polls += 1;
         rs.polls_since_external += 1;
+        rs.max_polls_since_external = rs.max_polls_since_external.max(rs.polls_since_external);
         rs.self_yields_in_poll = 0;
     }
     let waker = w.make_waker(r);
@@ -1143,8 +1162,11 @@ async fn poll_run<'g>(
                     let fr: FnRef<'static, SimFn> = unsafe { std::mem::transmute(fr) };
                     rs.held.push((id, fr));
                     rs.held_finish.push((id, fin));
-                    if id < rs.yielded.len() {
+                    if id < rs.yielded.len() && !rs.yielded[id] {
                         rs.yielded[id] = true;
+                        if rs.undropped_preds[id] == 0 {
+                            rs.releasable_unyielded = rs.releasable_unyielded.saturating_sub(1);
+                        }
                     }
                     w.push(Ev::Yield { run: r, id, interrupted });
                     cell.woken.set(cell.woken.get() + 1);
@@ -1170,6 +1192,9 @@ fn check_stall(w: &Rc<World>, built: &Built, r: usize) {
         }
         if rs.intr_delivered && rs.spec.strategy.interrupts() {
             // after a signal the stream may legitimately stop yielding
+            return;
+        }
+        if rs.releasable_unyielded == 0 {
             return;
         }
         let (yielded, dropped) = (&rs.yielded, &rs.ref_dropped);
